@@ -1,9 +1,35 @@
 (* C01 - Issuance round trip returns exactly the original claims and their paths. *)
 From Coq Require Import List String Ascii Bool Arith.
-Require Import SDJ.Json SDJ.Model2 SDJ.Restore2 SDJ.ATree SDJ.T2c SDJ.T2h.
+Import ListNotations.
+Require Import SDJ.Json SDJ.Wire SDJ.Model2 SDJ.Out SDJ.Restore2 SDJ.ATree SDJ.T2c SDJ.T2h SDJ.T1e SDJ.T1j SDJ.Issuer1 SDJ.Issuer2 SDJ.T1k.
 Local Open Scope string_scope.
 
-(* placeholder while the issuer theorems are ported to the final issuer model: stripping is projection *)
+(* For every well-formed claims value C (key-sorted objects, no reserved names), every list of path strings
+   that parse (split_paths) and on which marking succeeds (mark_fold: each path addresses a plain node of the
+   current tree - in particular descendants before ancestors, no repeats), every sequence of distinct salt
+   draws, every insertion-position draw (ie_pos E) and every injective hash/encoding:
+   the issuer fold produces a payload and disclosures such that the COMPLETE restore_disclosures (decode all,
+   passes until no progress, duplicate and structure checks) with all disclosures succeeds, and stripping the
+   bookkeeping from its result gives back exactly C.
+   PARTIAL with respect to the property: (a) 'valid marking => mark_fold succeeds', (b) the path component
+   (one path per marked claim), (c) the post-processing of encode (decoys, top-level shuffle, _sd_alg, cnf)
+   and the JWT layer are carried by the correspondence run, not yet by this theorem. *)
+Theorem C01_roundtrip_claims_partial :
+  forall E (dec : string -> dec_result),
+  (forall x y, ie_hash E x = ie_hash E y -> x = y) ->
+  (forall ps, dec (ie_enc E ps) = DJson (JArr ps)) ->
+  forall C paths tks salts t',
+    jwf C -> NoDup salts -> split_paths paths = Some tks ->
+    T1j.mark_fold (ie_hash E) (ie_enc E) Issuer2.parse_index Issuer2.parse_usize (ie_pos E) (embed C) tks salts = Some t' ->
+    aheight t' <= 129 ->
+    exists payload ds claims ps,
+      Issuer2.issue_fold E C paths salts = Ok (payload, ds) /\
+      restore_disclosures (ie_hash E) dec Wire.show_nat payload (map d_str ds) = Ok (claims, ps) /\
+      strip claims = C.
+Proof. exact issuer2_roundtrip. Qed.
+Print Assumptions C01_roundtrip_claims_partial.
+
+(* stripping a restored view is the property's projection (original claims minus unopened nodes) *)
 Theorem C01_strip_is_projection :
   forall (H : string -> string) (enc : list json -> string) (R : Rset) (t : atree),
     wf H enc t -> strip (view H enc R t) = proj H enc R t.
